@@ -137,13 +137,19 @@ func (mw *Middleware) Wrap(next dnsserver.Handler) (wrapped dnsserver.Handler) {
 		}
 
 		remoteIP := raddr.Addr()
-		loc, ecs, err := mw.location(ctx, req, remoteIP)
-		if err != nil {
-			return mw.processLocationErr(ctx, rw, req, err)
-		}
+		loc, ecs, locErr := mw.location(ctx, req, remoteIP)
 
 		ri := mw.newRequestInfo(ctx, req, rw.LocalAddr(), raddr)
 		defer mw.pool.Put(ri)
+
+		ri.Location, ri.ECS = loc, ecs
+
+		// Check the access settings before anything that responds to the
+		// client, including the errors below, since requests blocked by them
+		// must not be answered in any way.
+		if mw.isBlockedByAccess(ctx, ri, req, raddr) {
+			return nil
+		}
 
 		cont, err := mw.handleDeviceResult(ctx, ri.DeviceResult)
 		if !cont {
@@ -152,10 +158,8 @@ func (mw *Middleware) Wrap(next dnsserver.Handler) (wrapped dnsserver.Handler) {
 			return err
 		}
 
-		ri.Location, ri.ECS = loc, ecs
-
-		if mw.isBlockedByAccess(ctx, ri, req, raddr) {
-			return nil
+		if locErr != nil {
+			return mw.processLocationErr(ctx, rw, req, locErr)
 		}
 
 		ctx = agd.ContextWithRequestInfo(ctx, ri)
